@@ -178,11 +178,15 @@ where
     fn etag(&self) -> Option<HeaderValue> {
         // This etag format is similar to Apache's. The etag should change if the file is modified
         // or replaced. The length is probably redundant but doesn't harm anything.
-        let dur = self
-            .inner
-            .mtime
-            .duration_since(time::UNIX_EPOCH)
-            .expect("modification time must be after epoch");
+        // Whole seconds (rounded down) and nanoseconds since the epoch; the modification time of
+        // a regular file may well be before 1970.
+        let (secs, nanos) = match self.inner.mtime.duration_since(time::UNIX_EPOCH) {
+            Ok(d) => (d.as_secs() as i64, d.subsec_nanos()),
+            Err(e) => match (e.duration().as_secs() as i64, e.duration().subsec_nanos()) {
+                (s, 0) => (-s, 0),
+                (s, n) => (-s - 1, 1_000_000_000 - n),
+            },
+        };
 
         static HEX_U64_LEN: usize = 16;
         static HEX_U32_LEN: usize = 8;
@@ -191,8 +195,8 @@ where
             "\"{:x}:{:x}:{:x}:{:x}\"",
             self.inner.inode,
             self.inner.len,
-            dur.as_secs(),
-            dur.subsec_nanos()
+            secs,
+            nanos
         ))
     }
 
